@@ -363,7 +363,10 @@ Proof.
     rewrite F4 by (apply misc_not_begin; exact Hk). apply PC; exact N. }
   set (sp := fst (body e p s6)) in *.
   assert (GP : forall k, forallb (fun o => negb (touches k o)) (fst p) = true -> get k sp = get k s6).
-  { intros k T. unfold sp, body. cbn [fst]. rewrite run_ops_untouched by exact T.
+  { intros k T. unfold sp, body. cbn [fst].
+    assert (T' : forallb (fun o => negb (touches k o)) (eff_ops p) = true)
+      by (destruct (eff_ops_cases p) as [E|E]; rewrite E; [reflexivity|exact T]).
+    rewrite run_ops_untouched by exact T'.
     rewrite (proj1 (do_chdir_facts _ _ _ _)). destruct path_insert_in_try; reflexivity. }
   assert (IS : In k_showwarning misc_keys) by (left; reflexivity).
   assert (IV : In k_saved_showwarning misc_keys) by (right; left; reflexivity).
